@@ -66,6 +66,10 @@ type ref struct {
 	depth  int
 	hits   map[string]int
 	active map[*closure]int
+	// keep: positions at which a multiple-values result is kept as an object instead of being reduced to its
+	// primary value ("let-init", "or-argument", "mapcar-result", "do-init-step"). Empty = Common Lisp. slip
+	// treats a values object as an ordinary object that may be stored and passed on (rule S2, see judge).
+	keep map[string]bool
 }
 
 func newRef(mut string, budget int) *ref {
@@ -177,6 +181,14 @@ func (r *ref) run(forms []*node) (result val, err string) {
 }
 
 func (r *ref) ev1(n *node, env *frame) val { return prim(r.eval(n, env)) }
+
+// evKeep is ev1 except at a position where values objects are kept (see ref.keep).
+func (r *ref) evKeep(pos string, n *node, env *frame) val {
+	if r.keep[pos] {
+		return r.eval(n, env)
+	}
+	return r.ev1(n, env)
+}
 
 func (r *ref) progn(forms []*node, env *frame) (v val) {
 	for i, f := range forms {
@@ -377,7 +389,7 @@ func (r *ref) eval(n *node, env *frame) val {
 			if i == len(args)-1 {
 				return r.eval(a, env)
 			}
-			if v := r.ev1(a, env); truthy(v) {
+			if v := r.evKeep("or-argument", a, env); truthy(prim(v)) {
 				r.hit("branch-skipped")
 				return v
 			}
@@ -408,9 +420,9 @@ func (r *ref) eval(n *node, env *frame) val {
 			var v val
 			if init != nil {
 				if seq {
-					v = r.ev1(init, nf)
+					v = r.evKeep("let-init", init, nf)
 				} else {
-					v = r.ev1(init, env)
+					v = r.evKeep("let-init", init, env)
 				}
 			}
 			if seq {
@@ -572,9 +584,9 @@ func (r *ref) doLoop(seq bool, args []*node, env *frame) val {
 		var v val
 		if init != nil {
 			if seq {
-				v = r.ev1(init, nf)
+				v = r.evKeep("do-init-step", init, nf)
 			} else {
-				v = r.ev1(init, env)
+				v = r.evKeep("do-init-step", init, env)
 			}
 		}
 		if seq {
@@ -606,12 +618,12 @@ func (r *ref) doLoop(seq bool, args []*node, env *frame) val {
 		}
 		if seq {
 			for _, s := range steps {
-				nf.vals[s.idx] = r.ev1(s.step, nf)
+				nf.vals[s.idx] = r.evKeep("do-init-step", s.step, nf)
 			}
 		} else {
 			nv := make([]val, len(steps))
 			for i, s := range steps {
-				nv[i] = r.ev1(s.step, nf)
+				nv[i] = r.evKeep("do-init-step", s.step, nf)
 			}
 			for i, s := range steps {
 				nf.vals[s.idx] = nv[i]
@@ -834,7 +846,11 @@ func (r *ref) builtin(name string, args []val, env *frame) val {
 			for i := range lists {
 				ca[i] = lists[i][k]
 			}
-			out = append(out, prim(r.apply(args[0], ca, env)))
+			if r.keep["mapcar-result"] {
+				out = append(out, r.apply(args[0], ca, env))
+			} else {
+				out = append(out, prim(r.apply(args[0], ca, env)))
+			}
 		}
 		return mkList(out)
 	}
